@@ -84,12 +84,15 @@ const (
 	OpGCInf     = "GarbageCollect(age>files)"
 	OpGCCtxInf  = "GarbageCollectWithContext(age>files)"
 	OpMove      = "MoveBetweenFS(removal half)"
+	// the links of the tree are younger than the threshold while everything else (their targets outside included) is
+	// older: a collector that only refuses to follow the links it COLLECTS would still follow these
+	OpGCFreshLinks = "GarbageCollect(age<files, links younger than the threshold)"
 )
 
-var allOps = []string{OpRm, OpRemoveCtx, OpRemoveEx, OpClean, OpCleanCtx, OpCleanEx, OpGCOld, OpGCCtxOld, OpGCInf, OpGCCtxInf, OpMove}
+var allOps = []string{OpRm, OpRemoveCtx, OpRemoveEx, OpClean, OpCleanCtx, OpCleanEx, OpGCOld, OpGCCtxOld, OpGCInf, OpGCCtxInf, OpMove, OpGCFreshLinks}
 
 // one representative per distinct code path (used for the 2-link decorations)
-var coreOps = []string{OpRemoveEx, OpCleanEx, OpGCCtxOld, OpGCInf}
+var coreOps = []string{OpRemoveEx, OpCleanEx, OpGCCtxOld, OpGCInf, OpGCFreshLinks}
 
 func family(op string) string {
 	switch op {
@@ -122,7 +125,7 @@ func runOp(fs filesystem.FS, op, root string, patterns []string) error {
 		return fs.CleanDirWithContext(ctx, root)
 	case OpCleanEx:
 		return fs.CleanDirWithContextAndExclusionPatterns(ctx, root, patterns...)
-	case OpGCOld:
+	case OpGCOld, OpGCFreshLinks:
 		return fs.GarbageCollect(root, gcBelowAge)
 	case OpGCCtxOld:
 		return fs.GarbageCollectWithContext(ctx, root, gcBelowAge)
